@@ -1467,16 +1467,41 @@ class AsType(Elemwise):
             meta = clear_known_categories(meta)
         return meta
 
+    @functools.cached_property
+    def _preserves_values(self):
+        """Whether every value compares the same before and after the
+        conversion (e.g. int -> float, but not float -> int or int -> bool)"""
+        before, after = self.frame._meta, self._meta
+        try:
+            if before.ndim == 1:
+                pairs = [(before.dtype, after.dtype)]
+            else:
+                pairs = list(zip(before.dtypes, after.dtypes))
+            return all(
+                isinstance(a, np.dtype)
+                and isinstance(b, np.dtype)
+                and a.kind in "iuf"
+                and b.kind in "iuf"
+                and np.can_cast(a, b, casting="safe")
+                for a, b in pairs
+            )
+        except Exception:
+            return False
+
     def _simplify_up(self, parent, dependents):
         if isinstance(parent, Filter) and self._filter_passthrough_available(
             parent, dependents
         ):
-            return self._filter_simplification(parent)
+            if self._preserves_values:
+                return self._filter_simplification(parent)
+            # the predicate has to be evaluated on the converted values
+            return self._filter_simplification(parent, predicate=parent.predicate)
         if isinstance(parent, Projection):
             dtypes = self.operand("dtypes")
             columns = determine_column_projection(self, parent, dependents)
             if isinstance(dtypes, dict):
-                dtypes = {key: val for key, val in dtypes.items() if key in columns}
+                selected = _convert_to_list(columns)
+                dtypes = {key: val for key, val in dtypes.items() if key in selected}
                 if not dtypes:
                     return type(parent)(self.frame, *parent.operands[1:])
             if isinstance(columns, list):
